@@ -1444,8 +1444,13 @@ def run_all(build, jobs=16):
         for c in f.calls:
             if c not in funcs:
                 externs.add(c)
+    called_from_asm = set()
     for f in funcs.values():
-        f.c_reachable = f.is_global and (f.name in csyms or f.name in exported)
+        called_from_asm |= f.calls
+    for f in funcs.values():
+        # callable from C: referenced by a C object, exported by the shared object, or -- conservatively --
+        # a global function that no hand-written function calls (it can only be meant for C callers)
+        f.c_reachable = f.is_global and (f.name in csyms or f.name in exported or f.name not in called_from_asm)
     order = topo_order(funcs)
     summaries = {e: (SYSV_MASK, True) for e in externs}
     for n in order:
